@@ -229,7 +229,9 @@ func c07Scenarios(tier string) []engine.Scenario {
 			// crafted cookies for B2
 			a = append(a,
 				setCookie("B2", "not-base64", func(*world.World) string { return "%%%not-base64%%%" }),
-				setCookie("B2", "no-separator", func(*world.World) string { return base64.URLEncoding.EncodeToString([]byte("justsomebyteswithoutseparator")) }),
+				setCookie("B2", "no-separator", func(*world.World) string {
+					return base64.URLEncoding.EncodeToString([]byte("justsomebyteswithoutseparator"))
+				}),
 				setCookie("B2", "pid+zero-nonce", func(*world.World) string {
 					return base64.URLEncoding.EncodeToString(append([]byte(x+";"), make([]byte, 32)...))
 				}),
@@ -283,8 +285,8 @@ func c07Scenarios(tier string) []engine.Scenario {
 func init() {
 	engine.Register(&engine.Property{
 		ID: "C07", Level: "model_checking",
-		Rule: "E1 per PID class (plain, containing ';', leading ';', ';;', binary, one byte, OAuth2-built via the real OAuth2 flow) over login(rm) / restart / steal / probe / logout / password update / crafted cookies; oracle = the oracle's own record of live tokens; classes = cookie classes presented and issue kinds",
-		Units: func(tier string) []engine.Unit { return e1Units(c07Scenarios(tier)) },
+		Rule:        "E1 per PID class (plain, containing ';', leading ';', ';;', binary, one byte, OAuth2-built via the real OAuth2 flow) over login(rm) / restart / steal / probe / logout / password update / crafted cookies; oracle = the oracle's own record of live tokens; classes = cookie classes presented and issue kinds",
+		Units:       func(tier string) []engine.Unit { return e1Units(c07Scenarios(tier)) },
 		Assumptions: []string{"remember.Middleware wraps the whole application, as the README describes", "bounded depth, 2 accounts, 2 browsers"},
 	})
 }
